@@ -6,6 +6,7 @@ void parseFrame(void *frame, void *iface_ctx);    /* code under test */
 
 const uint8_t *pev_addr(int station, int iface) {
     if (station == ST_OWN) return W.iface[iface].mac;
+    if (station == ST_SIB) return W.iface[iface == 0 ? 1 : 0].mac;
     return vf_station[station];
 }
 
